@@ -1,10 +1,12 @@
-SPECIFICATION TSpec
+SPECIFICATION Spec
 CONSTANTS
   Handles = {"A", "B"}
-  NT = 4
+  NT = 2
+  MaxSteps = 4
   ReleaseOnFailedCtor = TRUE
   RollbackKeepsLock = TRUE
-  AllowFailedRollback = TRUE
+  FailedRollbackKeepsLock = FALSE
   AtomicAcquire = TRUE
-POSTCONDITION Accepted
+CONSTRAINT Bounded
+INVARIANT AtMostOneWriter
 CHECK_DEADLOCK FALSE
